@@ -214,6 +214,9 @@ func (w *Worker) monAccess(loc string, write, atomic bool) {
 }
 
 func (w *Worker) noteStore(p *Value) {
+	if w.frozen != nil && !w.inSetup && w.frozen[p] {
+		w.dirty = true // a path wrote into setup state: the world is rebuilt before the next path
+	}
 	if w.mon != nil && w.mon.active {
 		if loc, ok := w.mon.names[p]; ok && loc != "" && !w.isMutexCell(p) {
 			w.monAccess(loc, true, false)
@@ -238,6 +241,9 @@ func (w *Worker) noteAtomic(p *Value, write bool) {
 }
 
 func (w *Worker) noteMap(m *Map, write bool) {
+	if write && w.frozenMaps != nil && !w.inSetup && w.frozenMaps[m] {
+		w.dirty = true
+	}
 	if w.mon != nil && w.mon.active && m != nil {
 		if loc, ok := w.mon.maps[m]; ok && loc != "" {
 			w.monAccess(loc, write, false)
